@@ -95,3 +95,66 @@ def t_update_agents():
     goal(obl, "Simulator._update_agents_for_execution/lemma:one fill conserves the parties' total shares per market", [],
          z3.And(z3.Implies(b != s, step_s(b) + step_s(s) == SHARES(k, b, m) + SHARES(k, s, m)), z3.Implies(b == s, step_s(b) == SHARES(k, b, m)), z3.Implies(z3.And(x != b, x != s), step_s(x) == SHARES(k, x, m))))
     return {"obligations": obl, "info": [info]}
+
+
+# ----------------------------------------------------------------------------- clock stepping of all markets (C06, C17)
+TICK = emit("Tick")          # Market._update_time(next_fundamental_price): the market's clock advances (trace event Tick(market, price))
+FUND = emit("Fund", result=("real",), with_recv=False)      # Fundamentals.get_fundamental_price(market_id, time) -> value
+FUNDIDX = emit("FundIndex", result=("real",))               # IndexMarket.compute_fundamental_index(time) -> value
+
+
+def utm_trace(st0, st1, a, res):
+    sim, m = a["self"], a["market"]
+    isidx = is_instance("IndexMarket", m.term)
+    t1 = st0.read(m, "time").term + 1
+    fv = z3.Const("fund_value", z3.RealSort())
+    return [("Fund", z3.Not(isidx), (st0.read(m, "market_id").term, t1, None)), ("FundIndex", isidx, (m.term, t1, None)), ("Tick", None, (m.term, None))]
+
+
+UPDATE_TIME_ON_MARKET = FSpec("Simulator._update_time_on_market", props=("C06", "C17"), trace=utm_trace)
+
+
+@task("Simulator._update_time_on_market", props=["C06", "C17"], functions=["Simulator._update_time_on_market"], replay="whole_run")
+def t_update_time_on_market():
+    """a non-index market is advanced with the generator's value for time+1, an index market with the weighted average of its components for time+1"""
+    specs = {("m", "Market", "_update_time"): TICK, ("m", "Fundamentals", "get_fundamental_price"): FUND, ("m", "IndexMarket", "compute_fundamental_index"): FUNDIDX}
+
+    def extra(ex, st0, s1, a, res):
+        tr = s1.trace
+        # the value handed to the market is the one just obtained for the new time
+        if len(tr) == 2 and tr[1][0] == "Tick":
+            s1.oblige("trace:the recorded fundamental is the value obtained for time+1", tr[1][2][1] == tr[0][2][-1], "trace")
+    obl, info = UPDATE_TIME_ON_MARKET.verify(specs=specs, extra_goals=extra)
+    return {"obligations": obl, "info": [info]}
+
+
+UTOM = emit("TickMarket")
+
+
+def utms_trace(st0, st1, a, res):
+    return [("ForEach", None, (None, (("TickMarket", None, (a["self"].term, ELEM)),))), ("ForEach", None, (None, (("TickMarket", None, (a["self"].term, ELEM)),)))]
+
+
+from pyvc.spec import ELEM      # noqa
+UPDATE_TIMES = FSpec("Simulator._update_times_on_markets", props=("C06", "C17"), trace=utms_trace, param_types={"markets": ("list", ("ref", "Market"))})
+
+
+@task("Simulator._update_times_on_markets", props=["C06", "C17"], functions=["Simulator._update_times_on_markets"], replay="whole_run")
+def t_update_times():
+    """every market of the list is advanced exactly once per call; every non-index market before every index market"""
+    specs = {("m", "Simulator", "_update_time_on_market"): UTOM}
+    loops = {0: ForEachTrace(name="non-index markets"), 1: ForEachTrace(name="index markets")}
+
+    def extra(ex, st0, s1, a, res):
+        tr = s1.trace
+        if len(tr) != 2:
+            return
+        f1, f2 = tr[0][2][0], tr[1][2][0]
+        mk = a["markets"].term; x = z3.Const("x_utm", REF)
+        s1.oblige("post:the first pass visits exactly the non-index markets of the list, the second exactly the index markets",
+                  z3.ForAll([x], z3.And(s1.mem(f1, x) == z3.And(s1.mem(mk, x), z3.Not(is_instance("IndexMarket", x))),
+                                        s1.mem(f2, x) == z3.And(s1.mem(mk, x), is_instance("IndexMarket", x)))), "post")
+        s1.oblige("post:every market of the list is visited in exactly one of the two passes",
+                  z3.ForAll([x], z3.Implies(s1.mem(mk, x), z3.Xor(s1.mem(f1, x), s1.mem(f2, x)))), "post")
+    obl, info = UPDATE_TIMES.verify(specs=specs, loops=loops, extra_goals=extra)
+    return {"obligations": obl, "info": [info]}
